@@ -30,7 +30,9 @@ def is_prefix(p: list, q: list) -> bool:
 def deser_verdict(expect: dict, out: dict, ambig: bool = False, dups_ok: bool = False) -> str:
     """Same clauses as spec/trace/Trace_Deser.tla!Verdict."""
     if out["kind"] == "exc":
-        return "escape"
+        # a ValidationError whose `errors` cannot be computed / is not JSON data (a loc that is not a key of the
+        # input): the error REPORT is wrong (C02), the call itself did raise a ValidationError
+        return "errors-escape" if str(out.get("exc", "")).startswith("errors:") else "escape"
     if expect["ok"] and isinstance(expect["v"], dict) and expect["v"].get("k") == "unspecified":
         return "ok"
     if expect["ok"]:
